@@ -50,8 +50,11 @@ def batch(argv):
     deadline = time.time() + (float(argv[7]) if len(argv) > 7 else 3600.0)
     hashseed = os.environ.get("PYTHONHASHSEED", "random")
     g, ev = REG[prop]
+    import sim.props_a as _pa
+    _pa.TIER = tier
     stats, sigs, viols, samples, harness = {}, {}, [], [], []
     observations = {}
+    shapes = set()
     digests = {}
     want_digests = os.environ.get("VERIF_DIGESTS") == "1"
     n = 0
@@ -77,6 +80,8 @@ def batch(argv):
             digests[i] = [hashlib.sha256(json.dumps(jsonable(dd), sort_keys=True).encode()).hexdigest()[:16],
                           hashlib.sha256(json.dumps(jsonable(r), sort_keys=True).encode()).hexdigest()[:16]]
         merge_stats(stats, r["stats"])
+        if r.get("shape"):
+            shapes.add(r["shape"])
         if r["nontrivial"]:
             sigs[r["sig"]] = sigs.get(r["sig"], 0) + 1
         for v in r["violations"]:
@@ -89,7 +94,8 @@ def batch(argv):
             samples.append(doc)
     res = {"prop": prop, "lane": lane, "hashseed": hashseed, "evaluated": n, "stats": stats, "sigs": sigs,
            "violations": viols, "samples": samples, "harness_errors": harness[:20],
-           "n_harness_errors": len(harness), "wall_s": time.time() - t0, "repo": bootstrap.REPO}
+           "n_harness_errors": len(harness), "wall_s": time.time() - t0, "repo": bootstrap.REPO,
+           "shapes": sorted(shapes)}
     if observations:
         res["observations"] = observations
     if digests:
